@@ -99,6 +99,7 @@ race_run(Params *p)
 	}
 	sim_sleep_ms(10);
 	std::set<int> heard;
+	std::vector<std::pair<uint32_t, int>> vias;
 	for (;;) {
 		nng_msg *m = NULL;
 		if (nng_recvmsg(A, &m, NNG_FLAG_NONBLOCK) != 0)
@@ -109,12 +110,25 @@ race_run(Params *p)
 		if (!t.ok)
 			VIOL("corrupt_message", "A received a damaged message");
 		heard.insert((int) t.origin);
-		if (mon.admitted.count(via) == 0)
+		vias.push_back(std::make_pair(via, (int) t.origin));
+	}
+	// (the protocol may hand a message up before the thread that admitted the
+	// pipe has got round to the ADD_POST callback -- it may be stalled; what
+	// counts is that the pipe is one that was admitted)
+	{
+		uint64_t s0 = sim_stall_total_ns();
+		sim_sleep_ms(50);
+		for (int g = 0; g < 20 && sim_stall_total_ns() != s0; g++) {
+			s0 = sim_stall_total_ns();
+			sim_sleep_ms(50);
+		}
+	}
+	for (auto &v : vias)
+		if (mon.admitted.count(v.first) == 0)
 			VIOL("message_from_refused_peer",
 			    "pair%d: a message of peer %d was delivered over pipe %u, which the PAIR socket never admitted "
 			    "(no ADD_POST): it had another peer at the time",
-			    ver, (int) t.origin, via);
-	}
+			    ver, v.second, v.first);
 	if (mon.max_active > 1)
 		VIOL("two_peers_connected", "pair%d: %d pipes were connected to one PAIR socket at the same time", ver,
 		    mon.max_active);
